@@ -17,6 +17,10 @@ ReprOK == (Rec.op = "repr" /\ Done) =>
 TokenizeOK == (Rec.op = "tokenize" /\ Done) =>
     /\ Rec.toks = Tokenize(Dec(Rec.p))
     /\ Has("back") => Rec.back = Rec.p
+\* tokens of a whole list (one row per operator), also of a list that was changed in place since the last time
+TokenizeListOK == (Rec.op = "tokenizelist" /\ Done) =>
+    /\ Len(Rec.toks) = Len(Rec.ops)
+    /\ \A j \in 1..Len(Rec.ops) : Rec.toks[j] = Tokenize(Dec(Rec.ops[j]))
 \* lists: construction, size queries, selection, phase arithmetic
 ListOK == (Rec.op = "list" /\ Done) =>
     /\ Rec.ret = [j \in 1..Len(Rec.descs) |-> Enc(Parse(Rec.descs[j]))]
